@@ -24,7 +24,13 @@ func c07Decoys(k int) []*fo.RawDecl {
 	mk := func(names string, text string) *fo.RawDecl {
 		return &fo.RawDecl{Names: strings.Fields(n(names)), Text: n(text)}
 	}
-	return []*fo.RawDecl{
+	var named []*fo.RawDecl
+	if k == 1 || k == 1000 {
+		// (once per history) a user type that bears the name of the type parameter the generic
+		// definitions of the pool use: inside `type GBox<T> = ...` T is still the parameter
+		named = append(named, mk("T ZzTname#", "type T = {ZzTname#: string}"))
+	}
+	return append([]*fo.RawDecl{
 		mk("ZzRec# ZzA# ZzB#", "type ZzRec# = {ZzA#: int; ZzB#: string}"),
 		mk("ZzU# ZzP# ZzQ#", "type ZzU# =\n| ZzP# of int\n| ZzQ#"),
 		mk("zzGen#", "let zzGen# a b =\n  (b, a)"),
@@ -36,7 +42,7 @@ func c07Decoys(k int) []*fo.RawDecl {
 		mk("ZzBox# ZzItem# ZzCnt#", "type ZzBox#<T> = {ZzItem#: T; ZzCnt#: int}"),
 		mk("zzMk#", "let zzMk# (i:int) =\n  let a = {ZzItem#=i; ZzCnt#=1}\n  let b = {ZzItem#=\"s\"; ZzCnt#=2}\n  a.ZzCnt# + b.ZzCnt#"),
 		mk("zzMatch#", "let zzMatch# (u:ZzU#) =\n  match u with\n  | ZzP# i -> slice.Map (fun x -> x + i) [1; 2]\n  | ZzQ# -> [3]"),
-	}
+	}, named...)
 }
 
 // c07Probes: definitions appended to every pool that go through fc's shared lookups. Two records
